@@ -32,9 +32,49 @@ META['explanation'] += ' ' + 'R5: protocol constants, and the LDAP StartTLS requ
 
 META['explanation'] += ' ' + 'R11: flag keyed optional parts (shared with C01.R12). R12: flag / timestamp tabulation incl. repeated members.'
 
-META['explanation'] += ' ' + 'R13 / R14: no function changes a module level container / class level state on the way from bytes to message. R15: reported lengths (shared with C03.R3).'
+META['explanation'] += ' ' + 'R13 / R14: no function changes a module level container / class level state on the way from bytes to message. R15: reported lengths (shared with C03.R3). R16: the LDAP result code map evaluated against the enumeration.'
 MODULES = {'cryptoparser.tls.mysql', 'cryptoparser.tls.rdp', 'cryptoparser.tls.openvpn', 'cryptoparser.tls.postgresql', 'cryptoparser.tls.ldap'}
 HERE = os.path.dirname(os.path.dirname(os.path.abspath(__file__)))
+
+
+def ldap_result_code_map(ctx, report, RULE='C09.R16'):
+    """The ENUMERATED of an LDAP result is decoded through ``LDAPResultCodeEnum._map`` (number on the wire -> member).  The class
+    level expression that builds the map is evaluated (sa.miniexec, enum members standing for themselves): its keys have to be
+    exactly the numbers of the members of LDAPResultCode and every key has to lead to the member of that number - a map keyed by
+    position (``dict(enumerate(...))``) decodes 10 as the eleventh member."""
+    from ..miniexec import Evaluator, EnumVal, Raised, Unsupported, class_call_hook
+    model = ctx.model
+    report.rule(RULE, 'LDAP result codes: the decoding map takes every wire number to the member with that number, and no other number to any member')
+    c = model.try_cls('LDAPResultCodeEnum')
+    enum = model.try_cls('LDAPResultCode')
+    if c is None or enum is None or '_map' not in c.class_vars or not getattr(enum, 'enum_members', None):
+        report.error('%s: LDAPResultCodeEnum._map / LDAPResultCode not found' % RULE)
+        return
+    hook = class_call_hook(c, None, model)
+    ev = Evaluator({}, hook, hook.name_hook_for(c.module, None))
+    ev.class_scope, ev.class_scope_node = c, c.class_vars['_map']
+    try:
+        table = ev.ev(c.class_vars['_map'])
+    except (Unsupported, Raised, AttributeError, TypeError, KeyError, ValueError) as e:
+        report.undecided.append('%s: _map not evaluable: %s' % (RULE, e))
+        return
+    want = {}
+    for name, value in enum.enum_members.items():
+        number = value.get('value') if isinstance(value, dict) else (value.value if isinstance(value, ast.Constant) else value)
+        if not isinstance(number, int):
+            report.undecided.append('%s: value of LDAPResultCode.%s is not a literal' % (RULE, name))
+            return
+        want[number] = name
+    report.count(RULE, len(want))
+    got = {}
+    for k, v in (table.items() if isinstance(table, dict) else []):
+        got[k] = v.name if isinstance(v, EnumVal) else getattr(v, 'name', v)
+    if got != want:
+        wrong = sorted((k for k in set(got) | set(want) if got.get(k) != want.get(k)), key=repr)[:6]
+        report.add(RULE, '%s@map' % c.construct, 'the decoding map disagrees with the numbers of LDAPResultCode at %s (e.g. %r -> %r, the member with that number '
+                   'is %r): a result code is decoded as another one or refused' % (wrong, wrong[0] if wrong else None, got.get(wrong[0]) if wrong else None,
+                                                                                   want.get(wrong[0]) if wrong else None))
+    report.floor(RULE, 30, 'LDAP result codes')
 
 
 def check(ctx, report):
@@ -274,6 +314,7 @@ def ldap_schema(ctx, report):
     # the length a message parser reports is the number of bytes the message occupies (LDAP: the whole envelope, long form lengths
     # included); rule shared with C03.R3, on the classes of these modules
     from .c03 import return_lengths
+    ldap_result_code_map(ctx, report)
     report.rule('C09.R15', 'opportunistic-TLS messages: the reported length is the number of bytes the message occupied')
     return_lengths(ctx, report, RULE='C09.R15', only={k.name for k in ctx.model.concrete_parsables() if k.module.name in MODULES})
     report.floor('C09.R15', 8, 'message parse results')
